@@ -240,6 +240,8 @@ let () =
           match String.split_on_char ' ' line with
           | ["flushfail"; k; torn] -> FFlushFail (nat_of_int (int_of_string k), nat_of_int (int_of_string torn))
           | _ -> FOp (parse_op line)) in
+        (* the side condition of theorem c07_failed_flush_invisible_anywhere, evaluated on this faulted history *)
+        print_endline (if fhist_okb dinit Z0 ops then "fhistory_ok true" else "fhistory_ok false");
         List.iter (fun (o, f) ->
           let b = Bytes.create (List.length f) in
           List.iteri (fun i x -> Bytes.set b i (Char.chr (int_of_n x))) f;
